@@ -22,6 +22,7 @@ Observations:
 -/
 import GoZero.Base.Trace
 import GoZero.C03.Spec
+import GoZero.C03.ScriptRun
 namespace GoZero.C03
 
 open GoZero
@@ -41,6 +42,7 @@ structure PDrv where
   spec : Spec.PSpec := []
   up   : Bool := true
   win  : List (String × Nat) := []      -- window (seconds) of the running life per key, for the spec monitor
+  conn : Conn := {}                     -- link state and script cache of the store client's path
 
 def insertNat (x : Nat) : List Nat → List Nat
   | [] => [x]
@@ -60,6 +62,34 @@ def specTake (quota : Nat) (d : PDrv) (clock : Nat) (k : String) (w : Nat) : PDr
     | some l => l.start == clock && l.count == 1
     | none => false
   ({ d with spec := sp.1, win := if started then setWin k w d.win else d.win }, sp.2)
+
+def parseLink : String → Option Link
+  | "up" => some .up | "down" => some .down | "noscript" => some .noscript
+  | "noscriptdown" => some .noscriptDown | "shadown" => some .shaDown | _ => none
+
+def tripsStr (ts : List Trip) : String :=
+  if ts.isEmpty then "rt=-" else "rt=" ++ "+".intercalate (ts.map Trip.str)
+
+/-- the round trips `scriptRun` predicts for one call on this connection, and the connection afterwards -/
+def tripsOf (c : Conn) : String × Conn :=
+  let r := scriptRun true c (fun (u : Unit) => (u, ())) ()
+  (tripsStr r.2.2, r.1.2)
+
+/-- monitor on the observed round trips of ONE call: at most one EVALSHA and one EVAL (the script runs at most once),
+and an EVAL only after an EVALSHA -/
+def tripsSane (tok : String) : Bool :=
+  tok == "rt=-" || tok == "rt=evalsha" || tok == "rt=evalsha+eval"
+
+/-- compare the `rt=` token of a sequential call with the model; returns the report and the connection afterwards -/
+def checkTrips (r : Report) (sidx lidx : Nat) (what : String) (c : Conn) (tok : String) (sent : Bool) : Report × Conn :=
+  let (exp, c') := if sent then tripsOf c else ("rt=-", c)
+  let r := if exp ≠ tok then r.mismatch sidx lidx s!"{what}: {exp}" s!"{what}: {tok}" else r
+  let r := if !tripsSane tok then
+      r.violation sidx lidx s!"{what}: one call sent the script more than once or without EVALSHA first ({tok}): a request must be counted exactly once"
+    else r
+  let r := r.addCover (if tok == "rt=evalsha+eval" then (if c.link.serves then "x-noscript-reload-served" else "x-noscript-reload-failed")
+    else if tok == "rt=-" then "x-no-round-trip" else (if c.link.serves then "x-evalsha-served" else "x-evalsha-failed"))
+  (r, c')
 
 /-- tally of replies: allowed, hitQuota, overQuota, unknown, errors -/
 structure Tally where
@@ -129,6 +159,7 @@ def runPeriod (r : Report) (s : Section) : Report := Id.run do
   if quotaZ ≤ 0 then r := r.addCover "p-sec-quota-nonpositive"
   if periodZ ≤ 0 then r := r.addCover "p-sec-period-nonpositive"
   if align then r := r.addCover "p-sec-align"
+  if align && kvInt s.cfg "tz" 0 ≠ 0 then r := r.addCover "p-sec-align-zone-offset"
   if kvNat s.cfg "nlim" 1 > 1 then r := r.addCover "p-sec-several-limiters"
   for l in s.lines do
     r := { r with ops := r.ops + 1 }
@@ -142,13 +173,20 @@ def runPeriod (r : Report) (s : Section) : Report := Id.run do
         if impl ≠ "ok" then r := r.mismatch s.idx l.idx "ok" impl
       | none => r := r.mismatch s.idx l.idx "bad-op" (joinSp l.op)
     | ["down"] =>
-      d := { d with sys := (d.sys.step quota 0 .down).1, up := false }
+      d := { d with sys := (d.sys.step quota 0 .down).1, up := false, conn := { d.conn with link := .down } }
       r := r.addCover "p-down"
       if impl ≠ "ok" then r := r.mismatch s.idx l.idx "ok" impl
     | ["up"] =>
-      d := { d with sys := (d.sys.step quota 0 .up).1, up := true }
+      d := { d with sys := (d.sys.step quota 0 .up).1, up := true, conn := { d.conn with link := .up } }
       r := r.addCover "p-up"
       if impl ≠ "ok" then r := r.mismatch s.idx l.idx "ok" impl
+    | ["link", m] =>
+      match parseLink m with
+      | some lk =>
+        d := { d with sys := (d.sys.step quota 0 (PVOp.abs (.link lk))).1, up := lk.serves, conn := { d.conn with link := lk } }
+        r := r.addCover s!"p-link-{m}"
+        if impl ≠ "ok" then r := r.mismatch s.idx l.idx "ok" impl
+      | none => r := r.mismatch s.idx l.idx "bad-op" (joinSp l.op)
     | "takex" :: k :: _ =>
       if (calcExpireZ align periodZ 0).isNone then
         -- the window is computed before the script call: `unix % 0` panics whatever the context or the store
@@ -163,7 +201,14 @@ def runPeriod (r : Report) (s : Section) : Report := Id.run do
       if model ≠ implCmp then r := r.mismatch s.idx l.idx model implCmp
       if l.obs.headD "?" ≠ "0" || (l.obs.drop 1).headD "nil" = "nil" then
         r := r.violation s.idx l.idx s!"period: cancelled take {k} answered [{joinSp (l.obs.take 2)}] (must be Unknown + error)"
-    | "take" :: k :: _ | "takec" :: k :: _ =>
+      -- a cancelled context never reaches the server
+      let (r', c') := checkTrips r s.idx l.idx "cancelled take" d.conn ((l.obs.drop 3).headD "") false
+      r := r'; d := { d with conn := c' }
+    | "take" :: k :: _ | "takec" :: k :: _ | "ftake" :: k :: _ =>
+      if l.op.headD "" == "ftake" then
+        -- SCRIPT FLUSH first: the server's cache no longer knows the script
+        d := { d with conn := { d.conn with loaded := false } }
+        r := r.addCover "p-ftake"
       let clock := d.sys.store.clock
       let fresh := (d.sys.store.get k).isNone
       if (calcExpireZ align periodZ 0).isNone then
@@ -179,14 +224,19 @@ def runPeriod (r : Report) (s : Section) : Report := Id.run do
         let obsCode := (l.obs.headD "?")
         let obsErr := (l.obs.drop 1).headD "?"
         if obsCode ≠ "0" || obsErr = "nil" then
-          r := r.violation s.idx l.idx s!"period: store unreachable but take {k} answered [{obsCode} {obsErr}] (must be Unknown + error)"
+          r := r.violation s.idx l.idx s!"period: store error on the script path (link {repr d.conn.link}) but take {k} answered [{obsCode} {obsErr}] (must be Unknown + error)"
+        let (r', c') := checkTrips r s.idx l.idx s!"take {k}" d.conn ((l.obs.drop 3).headD "") true
+        r := r'; d := { d with conn := c' }
       else
       match windowFor align periodZ fresh l.obs ((l.obs.drop 2).headD "") with
       | none =>
         r := r.addCover "p-align-period-zero-panics"
         if !(l.obs.headD "" == "PANIC" && l.obs.contains "divide") then
           r := r.mismatch s.idx l.idx "PANIC runtime error: integer divide by zero" impl
-      | some (.inr msg) => r := r.mismatch s.idx l.idx msg impl
+      | some (.inr msg) =>
+        if msg.startsWith "window " then
+          r := r.violation s.idx l.idx s!"period: Align(): the life started by take {k} does not end on a multiple of the period of the local clock (unix + zone offset): {msg}"
+        else r := r.mismatch s.idx l.idx msg impl
       | some (.inl w) =>
         let res := d.sys.take quota w k
         d := { d with sys := res.1 }
@@ -205,7 +255,14 @@ def runPeriod (r : Report) (s : Section) : Report := Id.run do
         if align && fresh then r := r.addCover (if w = periodZ.toNat then "p-align-window-full" else "p-align-window-short")
         if obsCode ≠ toString code.toNat || obsErr ≠ "nil" then
           r := r.violation s.idx l.idx s!"period: take {k} quota={quotaZ} period={periodZ} spec=[{code.toNat} nil] impl=[{obsCode} {obsErr}]"
+        let (r', c') := checkTrips r s.idx l.idx s!"take {k}" d.conn ((l.obs.drop 3).headD "") true
+        r := r'; d := { d with conn := c' }
     | ["ctake", k, m] =>
+      if d.conn.link = .noscript || d.conn.link = .noscriptDown || d.conn.link = .shaDown || !d.conn.loaded then
+        -- concurrent NOSCRIPT answers open the client's breaker (finding 3): the harness does not run these
+        r := r.addCover "p-concurrent-skipped-in-link-mode"
+        if impl ≠ "skipped-link" then r := r.mismatch s.idx l.idx "skipped-link" impl
+        continue
       match m.toNat? with
       | none => r := r.mismatch s.idx l.idx "bad-op" (joinSp l.op)
       | some m =>
@@ -235,6 +292,11 @@ def runPeriod (r : Report) (s : Section) : Report := Id.run do
           if obsCodes ≠ codesStr specCodes then
             r := r.violation s.idx l.idx s!"period: {m} concurrent takes on {k} quota={quotaZ} spec=[{codesStr specCodes}] impl=[{obsCodes}]"
     | ["cptake", g, c, ks] =>
+      if d.conn.link = .noscript || d.conn.link = .noscriptDown || d.conn.link = .shaDown || !d.conn.loaded then
+        -- concurrent NOSCRIPT answers open the client's breaker (finding 3): the harness does not run these
+        r := r.addCover "p-concurrent-skipped-in-link-mode"
+        if impl ≠ "skipped-link" then r := r.mismatch s.idx l.idx "skipped-link" impl
+        continue
       match g.toNat?, c.toNat? with
       | some g, some c =>
         let keys := ks.splitOn ","
@@ -295,6 +357,8 @@ structure TDrv where
   up      : Bool := true
   rlast   : Nat → Nat := fun _ => 0    -- `now` (ns) of the latest locally decided request, per instance
   rmono   : Nat → Bool := fun _ => true -- hypothesis of rescue_local_bound: those `now`s never went backwards
+  conn    : Conn := {}                  -- link state and script cache of the store client's path
+  pingOk  : Bool := true                -- the server answers PING with PONG (only in link state `up`)
 
 def tokDump (c : TCfg) (s : Store) : String := s!"{dumpKey s "tok" c.k1} {dumpKey s "ts" c.k2}"
 
@@ -385,12 +449,32 @@ def runToken (r : Report) (s : Section) : Report := Id.run do
         if impl ≠ "ok" then r := r.mismatch s.idx l.idx "ok" impl
       | none => r := r.mismatch s.idx l.idx "bad-op" (joinSp l.op)
     | ["down"] =>
-      d := { d with sys := (d.sys.step true c .down).1, up := false }
+      d := { d with sys := (d.sys.step true c .down).1, up := false, conn := { d.conn with link := .down }, pingOk := false }
       r := r.addCover "t-down"
       if impl ≠ "ok" then r := r.mismatch s.idx l.idx "ok" impl
+    | ["link", m] =>
+      match parseLink m with
+      | some lk =>
+        if lk = .up || lk = .down then r := r.mismatch s.idx l.idx "bad-op" (joinSp l.op)
+        else
+          -- noscript: scripts are served through the EVAL fallback, PING is held (like `upstore`); the others: like `down`
+          d := { d with sys := (d.sys.step true c (if lk.serves then .up else .down)).1, up := lk.serves,
+                        conn := { d.conn with link := lk }, pingOk := false }
+          r := r.addCover s!"t-link-{m}"
+          if impl ≠ "ok" then r := r.mismatch s.idx l.idx "ok" impl
+      | none => r := r.mismatch s.idx l.idx "bad-op" (joinSp l.op)
+    | ["ping"] =>
+      let exp := pingResult true (if d.pingOk then some "PONG" else none)
+      let model := s!"ping={b2s exp} raw={if d.pingOk then "PONG" else "err"}"
+      r := r.addCover (if exp then "t-ping-true" else "t-ping-false")
+      if model ≠ impl then r := r.mismatch s.idx l.idx model impl
+      if kv? l.obs "raw" = some "PONG" && kv? l.obs "ping" ≠ some "1" then
+        r := r.violation s.idx l.idx s!"token: the server answers PING with PONG but Redis.Ping() reports [{impl}]: the monitor goroutine can never bring an instance back from its local limiter to the shared bucket"
+      if kv? l.obs "raw" ≠ some "PONG" && kv? l.obs "ping" = some "1" then
+        r := r.violation s.idx l.idx s!"token: PING fails but Redis.Ping() reports success [{impl}]: an instance would return to a store that is unreachable"
     | ["upstore"] =>
       -- scripts are served again, no ping has succeeded yet: no pingOk / monExit event
-      d := { d with sys := (d.sys.step true c .up).1, up := true }
+      d := { d with sys := (d.sys.step true c .up).1, up := true, conn := { d.conn with link := .up } }
       r := r.addCover "t-upstore"
       if (List.range ninst).any fun i => !(d.sys.insts i).alive then r := r.addCover "t-upstore-some-instance-in-rescue"
       if impl ≠ "ok" then r := r.mismatch s.idx l.idx "ok" impl
@@ -407,9 +491,12 @@ def runToken (r : Report) (s : Section) : Report := Id.run do
           for j in [0:ninst] do
             sys := (sys.step true c (.pingOk j)).1
             sys := (sys.step true c (.monExit j)).1
-        d := { d with sys := sys, up := true }
+        d := { d with sys := sys, up := true, conn := { d.conn with link := .up }, pingOk := true }
         r := r.addCover (if inWindow then "t-latefail-in-monitor-window" else "t-latefail-plain")
-        if l.obs.headD "" = "TIMEOUT-monitor" then
+        if l.obs.headD "" = "PINGBROKEN" then
+          r := r.violation s.idx l.idx s!"token: the server answers PING with PONG but Redis.Ping() reports false [{impl}]: the monitor goroutine can never bring an instance back from its local limiter to the shared bucket"
+          abandoned := true
+        else if l.obs.headD "" = "TIMEOUT-monitor" then
           r := r.addCover "t-up-timeout-section-abandoned"
           abandoned := true
         else
@@ -422,9 +509,12 @@ def runToken (r : Report) (s : Section) : Report := Id.run do
       for i in [0:ninst] do
         sys := (sys.step true c (.pingOk i)).1
         sys := (sys.step true c (.monExit i)).1
-      d := { d with sys := sys, up := true }
+      d := { d with sys := sys, up := true, conn := { d.conn with link := .up }, pingOk := true }
       r := r.addCover "t-up"
-      if l.obs.headD "" = "TIMEOUT-monitor" then
+      if l.obs.headD "" = "PINGBROKEN" then
+        r := r.violation s.idx l.idx s!"token: the server answers PING with PONG but Redis.Ping() reports false [{impl}]: the monitor goroutine can never bring an instance back from its local limiter to the shared bucket"
+        abandoned := true
+      else if l.obs.headD "" = "TIMEOUT-monitor" then
         -- the real 100 ms ping goroutine did not bring every instance back within the harness' (generous)
         -- real-time bound: recovery latency is not part of the property and depends on machine load, so
         -- the rest of this section cannot be compared; `driver` reports it if it happens more than once
@@ -435,6 +525,10 @@ def runToken (r : Report) (s : Section) : Report := Id.run do
         if l.obs.headD "" = "STUCK" then
           r := r.violation s.idx l.idx s!"token: the store is reachable and no request has failed since, yet an instance stays on its local limiter for ever: {joinSp (l.obs.drop 1)} (no monitor goroutine will set redisAlive again)"
     | ["callow", ns, n, m] =>
+      if d.conn.link = .noscript || d.conn.link = .noscriptDown || d.conn.link = .shaDown || !d.conn.loaded then
+        r := r.addCover "t-concurrent-skipped-in-link-mode"
+        if impl ≠ "skipped-link" then r := r.mismatch s.idx l.idx "skipped-link" impl
+        continue
       match ns.toNat?, n.toNat?, m.toNat? with
       | some ns, some n, some m =>
         let sec := ns / nsPerSec
@@ -490,8 +584,18 @@ def runToken (r : Report) (s : Section) : Report := Id.run do
           d := d'; r := r'
       | _, _, _ => r := r.mismatch s.idx l.idx "bad-op" (joinSp l.op)
     | [verb, i, ns, n] =>
-      match (verb == "allow" || verb == "allowc" || verb == "allowx"), i.toNat?, ns.toNat?, n.toNat? with
+      match (verb == "allow" || verb == "allowc" || verb == "allowx" || verb == "fallow"), i.toNat?, ns.toNat?, n.toNat? with
       | true, some i, some ns, some n =>
+        -- the last token is the list of script round trips the call made
+        let rtTok := l.obs.getLast?.getD ""
+        let impl := joinSp l.obs.dropLast
+        if verb == "fallow" then
+          d := { d with conn := { d.conn with loaded := false } }
+          r := r.addCover "t-fallow"
+        -- an instance in rescue mode sends nothing; a cancelled context never reaches the server
+        let sent := (d.sys.insts i).alive && verb != "allowx"
+        let (r', c') := checkTrips r s.idx l.idx s!"{verb} inst={i}" d.conn rtTok sent
+        r := r'; d := { d with conn := c' }
         if verb == "allowx" && (d.sys.insts i).alive then
           -- cancelled context, instance on the store path: the script call fails with the context's error,
           -- `return false`; neither the store nor the flags nor the local limiter are touched
@@ -553,6 +657,10 @@ def runToken (r : Report) (s : Section) : Report := Id.run do
             d := d'; r := r'
       | _, _, _, _ => r := r.mismatch s.idx l.idx "bad-op" (joinSp l.op)
     | ["cstorm", ns, n, g, cc] =>
+      if d.conn.link = .noscript || d.conn.link = .noscriptDown || d.conn.link = .shaDown || !d.conn.loaded then
+        r := r.addCover "t-concurrent-skipped-in-link-mode"
+        if impl ≠ "skipped-link" then r := r.mismatch s.idx l.idx "skipped-link" impl
+        continue
       match ns.toNat?, n.toNat?, g.toNat?, cc.toNat? with
       | some ns, some n, some g, some cc =>
         let sec := ns / nsPerSec
@@ -614,6 +722,10 @@ def runToken (r : Report) (s : Section) : Report := Id.run do
           d := d'; r := r'
       | _, _, _, _ => r := r.mismatch s.idx l.idx "bad-op" (joinSp l.op)
     | ["cmix", ns, ents] =>
+      if d.conn.link = .noscript || d.conn.link = .noscriptDown || d.conn.link = .shaDown || !d.conn.loaded then
+        r := r.addCover "t-concurrent-skipped-in-link-mode"
+        if impl ≠ "skipped-link" then r := r.mismatch s.idx l.idx "skipped-link" impl
+        continue
       let parsed : List (Option (Nat × Nat)) := (ents.splitOn ",").map fun e =>
         match e.splitOn ":" with
         | [a, b] => match a.toNat?, b.toNat? with
